@@ -465,7 +465,7 @@ pub fn property() -> Property {
         post: None,
         parts: vec![
             Box::new(Part { name: "covering-sweep", driver: Driver::Enum(sweep), prop, exhaustive: false }),
-            Box::new(Part { name: "layouts", driver: Driver::Gen(strategy, 1_500, 20_000), prop, exhaustive: false }),
+            Box::new(Part { name: "layouts", driver: Driver::Gen(strategy, 1_500, 40_000), prop, exhaustive: false }),
         ],
     }
 }
